@@ -18,11 +18,65 @@ def sh(cmd, cwd, timeout=3600):
     return p.returncode, p.stdout
 
 
+def main_inline(wt, i, sid, prop, diff, inline, notes):
+    """the demonstration is a #[cfg(test)] module to be appended to a source file (private API)"""
+    first = open(inline).readline()
+    target = re.search(r'inline:\s*(\S+)', first).group(1)
+    crate = target.split('/')[0]
+    pkg = 'inkayaku_' + crate
+    log = {'inline_target': target}
+    sh('git checkout -- .', wt)
+    src = os.path.join(wt, target)
+    body = open(inline).read()
+    ok = True
+    try:
+        open(src, 'a').write('\n' + body)
+        rc, out = sh('cargo test --offline -p %s --lib seed_demo 2>&1 | tail -15' % pkg, wt)
+        log['demo_without_change'] = 'pass' if 'test result: ok' in out and 'FAILED' not in out and not re.search(r' 0 passed', out) else 'FAIL'
+        if log['demo_without_change'] != 'pass':
+            ok = False
+            log['out'] = out[-800:]
+        sh('git checkout -- .', wt)
+        rc, out = sh('git apply --whitespace=nowarn %s' % diff, wt)
+        if rc != 0:
+            ok = False
+            log['apply'] = out
+        else:
+            rc, out = sh('cargo test --offline -p %s --lib 2>&1 -- --skip test_threefold_1 --skip test_threefold_2 --skip test_threefold_3 | grep -E "^test result|FAILED" | head' % pkg, wt)
+            log['unit_tests'] = out.strip()
+            if 'FAILED' in out or 'test result: ok' not in out:
+                ok = False
+            open(src, 'a').write('\n' + body)
+            rc, out = sh('cargo test --offline -p %s --lib seed_demo 2>&1 | tail -15' % pkg, wt)
+            log['demo_with_change'] = 'fail' if 'FAILED' in out or 'panicked' in out else 'PASSES'
+            if log['demo_with_change'] != 'fail':
+                ok = False
+    finally:
+        sh('git checkout -- .', wt)
+    log['confirmed'] = ok
+    print(json.dumps(log, indent=1))
+    if ok:
+        d = os.path.join(VERIF, 'seeded', sid)
+        os.makedirs(d, exist_ok=True)
+        shutil.copy(diff, os.path.join(d, 'patch.diff'))
+        shutil.copy(inline, os.path.join(d, 'demo_inline.rs'))
+        if os.path.exists(notes):
+            shutil.copy(notes, os.path.join(d, 'notes.md'))
+        meta = {'id': sid, 'breaks': [prop], 'demo_crate': pkg, 'demo_kind': 'inline test module appended to ' + target,
+                'confirmed_by': 'tools/confirm_seed.py in scratch worktree %s' % wt, 'confirmation': log,
+                'needs': open(notes).read()[:1500] if os.path.exists(notes) else ''}
+        json.dump(meta, open(os.path.join(d, 'meta.json'), 'w'), indent=1)
+    return 0 if ok else 1
+
+
 def main():
     wt, i, sid, prop = sys.argv[1], sys.argv[2], sys.argv[3], sys.argv[4]
     seed = os.path.join(wt, '_seed')
     diff = os.path.join(seed, 'change%s.diff' % i)
     demo = os.path.join(seed, 'demo%s.rs' % i)
+    inline = os.path.join(seed, 'demo%s_inline.rs' % i)
+    if not os.path.exists(demo) and os.path.exists(inline):
+        return main_inline(wt, i, sid, prop, diff, inline, os.path.join(seed, 'notes%s.md' % i))
     notes = os.path.join(seed, 'notes%s.md' % i)
     first = open(demo).readline()
     m = re.search(r'crate:\s*([A-Za-z_]+)', first)
